@@ -315,7 +315,7 @@ impl Feig {
             request,
             &mut self.socket,
             retry,
-            Duration::from_secs((timeout_sec + 2) as u64),
+            Duration::from_secs(timeout_sec as u64 + 2),
         );
         let mut card_info = None;
         while let Some(response) = stream.next().await {
